@@ -21,7 +21,9 @@ HELPERS = (("n", "", S("a")), ("sc", "_", ("alt", (S("a"), S("b")))), ("ss", "_"
 T_OPT = (S("a"), S("ab"), S("b"), ("ci", "a"), ("range", "a", "c"), R("ASCII_DIGIT"), R("ANY"), R("n"), R("sc"), R("ss"),
          NOT_ANY(S("b")), NOT_ANY(("grp", ("alt", (S("a"), S("b"))))), NOT_ANY(R("sc")), NOT_ANY(R("n")),
          # stop strings that overlap / are listed after a shorter one they contain
-         NOT_ANY(("grp", ("alt", (S("b"), S("ab"))))), NOT_ANY(("grp", ("alt", (S("1"), S("a1"), S("b"))))))
+         NOT_ANY(("grp", ("alt", (S("b"), S("ab"))))), NOT_ANY(("grp", ("alt", (S("1"), S("a1"), S("b"))))),
+         # a tagged reference to a silent rule (inlining must not lose the tag); a skip shape inside a skip shape
+         ("tag", "tt", R("ss")), NOT_ANY(("grp", NOT_ANY(S("a")))))
 SIGMA = "ab1"
 PASS_NAMES = ("unroll", "skip", "inline built-in", "squash_choice", "inline silent")
 
@@ -39,6 +41,11 @@ NAME_GRAMMARS = [
     ("user-rule-SKIP-with-ws-choice", 'WHITESPACE = _{ " " | "\\t" }\nSKIP = { "a" }\nr = { SKIP ~ "b" }\n', ("r", "SKIP")),
     ("tagged-group-plus", 'n = { "a" }\nr = { #tt = (n)+ }\nq = { (#tt = n)+ ~ "b" }\n', ("r", "q")),
     ("builtins", 'r = { ASCII_HEX_DIGIT+ ~ NEWLINE? ~ ASCII_ALPHA* }\nq = { (ASCII_DIGIT | "a" | "b")+ }\n', ("r", "q")),
+    # recursive rule graphs: passes that follow or inline references must terminate and keep the language
+    ("silent-cycle", 'a = _{ "a" ~ b? }\nb = _{ "b" ~ a? }\nr = { a ~ "1" }\n', ("r",)),
+    ("silent-self-recursion", 'p = _{ "a" ~ p ~ "b" | "1" }\nr = { p }\nq = { (!p ~ ANY)* ~ p }\n', ("r", "q")),
+    ("normal-recursion", 'p = { "a" ~ p? ~ "b" }\ns = _{ p | "1" }\nr = @{ (!s ~ ANY)* ~ s }\n', ("r", "p")),
+    ("silent-chain", 'a = _{ b ~ "1" }\nb = _{ c | "a" }\nc = _{ "b" ~ "b" }\nr = { a+ }\n', ("r",)),
 ]
 
 
@@ -173,8 +180,15 @@ def build_specs(tier: str):
 
     wide = [x for row in b["wide"] for x in fam(*row, "opt-wide")]
     deep = [x for row in b["deep"] for x in fam(*row, "opt-deep")]
+    # explicit references to WHITESPACE / COMMENT (whose bodies are atomic by name) with inputs long enough for
+    # trivia to occur INSIDE the referenced body if it were inlined into a non-atomic rule
+    for tv, sigma, L in (("cm2", "a#!", 5), ("both", "a #!", 4)):
+        terms = (S("a"),) + tuple(R(r[0]) for r in families.TRIVIA[tv])
+        bodies = gast.exprs_upto(3 if tier == "thorough" else 2, terms, gast.U_CORE, ("seq", "alt"), gast.Env(HELPERS + families.TRIVIA[tv]))
+        starts = [((), (m, body)) for body in bodies for m in ("", "@")]
+        wide.extend(families.batch_specs(starts, families.TRIVIA[tv] + HELPERS, families.inputs(sigma, L), "zero", f"explicit-trivia({tv})"))
     names = []
-    ins = families.inputs("ab1 #\t\n", 3)
+    ins = families.inputs("ab1 #\t\n", 3) + families.inputs("ab1", 4)[40:]
     for label, text, starts in NAME_GRAMMARS:
         s = engine.Spec((), starts, ins, "zero", f"names({label})")
         s._text = text
@@ -223,7 +237,7 @@ def run(tier: str) -> int:
     rep.coverage = {
         "evaluations": agg.get("evaluations", 0),
         "distinct_nontrivial": agg.get("nontrivial", 0),
-        "rule": "grammars biased to what the passes pattern-match on: every expression with <= n nodes over {\"a\",\"ab\",\"b\",^\"a\",'a'..'c',ASCII_DIGIT,ANY,n,sc,ss,(!\"b\" ~ ANY)*,(!(\"a\"|\"b\") ~ ANY)*,(!sc ~ ANY)*,(!n ~ ANY)*,(!(\"b\"|\"ab\") ~ ANY)*,(!(\"1\"|\"a1\"|\"b\") ~ ANY)*, WHITESPACE/COMMENT when defined} "
+        "rule": "grammars biased to what the passes pattern-match on: every expression with <= n nodes over {\"a\",\"ab\",\"b\",^\"a\",'a'..'c',ASCII_DIGIT,ANY,n,sc,ss,(!\"b\" ~ ANY)*,(!(\"a\"|\"b\") ~ ANY)*,(!sc ~ ANY)*,(!n ~ ANY)*,(!(\"b\"|\"ab\") ~ ANY)*,(!(\"1\"|\"a1\"|\"b\") ~ ANY)*, #tt = ss, (!((!\"a\" ~ ANY)*) ~ ANY)*, WHITESPACE/COMMENT when defined} "
                 "(sc = _{ \"a\" | \"b\" }, ss = _{ n ~ \"b\" }) with all unary operators and ~ |, x trivia configuration x start modifier, plus grammars with a user rule named SKIP, tagged groups and built-ins; "
                 "optimizer configurations: the DEFAULT_OPTIMIZER object, the default pipeline, the pipeline applied twice, each of the 5 exported passes alone (these 8 also through generate()), "
                 "every sequence of passes of length 2 and 3 (150) and all 120 permutations of the five (interpreted). Each (chunk, configuration) runs in its own forked child, baseline first. "
